@@ -1,6 +1,9 @@
 package main
 
-func init() { register("C08", runC08) }
+func init() {
+	register("C08", runC08)
+	rsExtra["C08"] = rsFineFamilyC08
+}
 
 func runC08(cfg *runCfg) error {
 	n := 350
